@@ -10,6 +10,6 @@ for id in $ids; do
   out=$(bash tools/try_mutant.sh $d/patch.diff $props 2>&1)
   v=$(echo "$out" | grep -c "^VIOLATION")
   vi=$(echo "$out" | grep "^VIOLATION" | grep -vc "no-failing-input-found")
-  if [ "$v" = 0 ]; then echo "$id MISSED ($props)"; elif [ "$vi" = 0 ]; then echo "$id caught no-input ($props)"; else echo "$id caught input ($props): $(echo "$out" | grep '^VIOLATION' | grep -v no-failing | sed 's/.*property=\(C[0-9]*\).*/\1/' | tr '\n' ' ')"; fi
+  if echo "$out" | grep -q "patch does not apply"; then echo "$id PATCH-DOES-NOT-APPLY (rebase it on the current /repo HEAD)"; elif [ "$v" = 0 ]; then echo "$id MISSED ($props)"; elif [ "$vi" = 0 ]; then echo "$id caught no-input ($props)"; else echo "$id caught input ($props): $(echo "$out" | grep '^VIOLATION' | grep -v no-failing | sed 's/.*property=\(C[0-9]*\).*/\1/' | tr '\n' ' ')"; fi
 done
 git -C /repo status --short | head -3
